@@ -283,3 +283,45 @@ h!(q_uninit_zst_elements, {
     drop(w);
     assert!(n_live() == 0);
 });
+
+
+// ---- over-aligned payload: the slot handed out by write / as_mut_ptr is the payload's own (aligned) place,
+//      not the word after the count
+h!(q_new_uninit_overaligned, {
+    let b: [u8; 33] = kani::any();
+    let mut u = UniqueArc::<S33a32>::new_uninit();
+    let blk = block_nr(0);
+    assert!(blk.align == 32 && blk.size == 96, "new_uninit: wrong layout for an over-aligned payload");
+    let slot = u.as_mut_ptr() as usize;
+    assert!(slot == blk.addr + 32, "as_mut_ptr is not the payload's place");
+    u.write(S33a32(b));
+    let u = unsafe { UniqueArc::assume_init(u) };
+    assert!(&*u as *const S33a32 as usize == slot && u.0[0] == b[0] && u.0[32] == b[32], "value written through write() is not what assume_init exposes");
+    let a = u.shareable();
+    drop(a);
+    assert!(n_live() == 0);
+    let mut a = Arc::<MaybeUninit<S33a32>>::new_uninit();
+    let slot = a.as_mut_ptr() as usize;
+    assert!(slot == a.heap_ptr() as usize + 32 && slot % 32 == 0);
+    unsafe { (a.as_mut_ptr() as *mut S33a32).write(S33a32(b)) };
+    let a = unsafe { a.assume_init() };
+    assert!(a.0[1] == b[1] && Arc::as_ptr(&a) as usize == slot);
+    drop(a);
+    assert!(n_live() == 0);
+});
+// small payloads: the block requested by new_uninit is the block released (size padded to the alignment)
+h!(q_new_uninit_small_layouts, {
+    let u = UniqueArc::<u8>::new_uninit();
+    assert!(block_nr(0).size == 16 && block_nr(0).align == 8, "new_uninit::<u8>: wrong layout");
+    drop(u);
+    let mut u = UniqueArc::<[u8; 3]>::new_uninit();
+    assert!(block_nr(1).size == 16 && block_nr(1).align == 8, "new_uninit::<[u8;3]>: wrong layout");
+    u.write([1, 2, 3]);
+    let a = unsafe { UniqueArc::assume_init(u) }.shareable();
+    assert!(a[2] == 3);
+    drop(a);
+    let a = Arc::<MaybeUninit<u32>>::new_uninit();
+    assert!(block_nr(2).size == 16 && block_nr(2).align == 8);
+    drop(a);
+    assert!(n_live() == 0);
+});
